@@ -55,7 +55,7 @@ struct SdoDict {
 static inline std::vector<uint8_t> sdo_view(World &w, int slot, const SdoObj &o) {
     std::vector<uint8_t> b = w.bytes(slot, o.idx, o.sub);
     if (o.kind == 2) { b.resize(o.size); return b; }
-    if (o.kind == 0 && o.nodeid) { uint32_t v = 0; for (size_t i = 0; i < b.size(); i++) v |= (uint32_t)b[i] << (8 * i); v += w.s[slot].node->NodeId; for (size_t i = 0; i < b.size(); i++) b[i] = (uint8_t)(v >> (8 * i)); }
+    if ((o.kind == 0 || o.kind == 4) && o.nodeid) { uint32_t v = 0; for (size_t i = 0; i < b.size(); i++) v |= (uint32_t)b[i] << (8 * i); v += w.s[slot].node->NodeId; for (size_t i = 0; i < b.size(); i++) b[i] = (uint8_t)(v >> (8 * i)); }
     return b;
 }
 
